@@ -168,12 +168,14 @@ def variable_does_not_equal(context, variable, value):
 
 
 @then('expression {expression} holds')
+@then('expression "{expression}" holds')
 def expression_holds(context, expression):
     assert testing.expression_holds(
         context.interpreter, expression), 'Expression {} does not holds'.format(expression)
 
 
 @then('expression {expression} does not hold')
+@then('expression "{expression}" does not hold')
 def expression_does_not_hold(context, expression):
     assert not testing.expression_holds(
         context.interpreter, expression), 'Expression {} holds'.format(expression)
